@@ -222,7 +222,7 @@ Theorem parse_refines_scan_shipped : forall name doc d td fs mt defs v8 v9 mid r
   Group.rg_scan (td_xh td) (td_xt td) (Some (map gdef_rg defs)) Group.RgTop 3%nat mid [] = Ok res ->
   exists m, do_parsing (ser fs) td (Some (pd_app_dict d)) = Ok m /\
     m_raw m = Some (ser fs) /\
-    m_fields m = map init_of fs ++ repeat tv_zero (count_byte SOH (ser fs) - length fs) /\
+    m_fields m = map init_of fs /\
     m_header m = fold_left (addH td) fs hdr0 /\
     m_trailer m = fold_left (addT td) fs trl0 /\
     m_body m = body_of fs res.
